@@ -8,6 +8,7 @@ package x509
 //@ import "crypto/x509/pkix"
 //@ import "time"
 //@ import "bytes"
+//@ import "encoding/pem"
 //@ import "github.com/notaryproject/notation-core-go/internal/oid"
 //@ import "github.com/notaryproject/notation-core-go/internal/algorithm"
 
@@ -219,3 +220,16 @@ package x509
 //@     invariant len(certChain) > 1
 //@     invariant forall j :: 0 <= j && j < it ==> TSStep(certChain, j)
 //@   pure
+
+// ---- cert.go, key.go (C09: any file content ends in a value or an error; the PEM loop terminates)
+//@ func ReadCertificateFile(path)
+//@   ensures [err] err != nil ==> len(result) == 0
+//@ func parseCertificates(data)
+//@   ensures [err] err != nil ==> len(result) == 0
+//@   loop 0
+//@     invariant block != nil ==> len(rest) >= 0
+//@     decreases len(rest) + (if block != nil then 1 else 0)
+// (on a parse error the EC and PKCS#1 branches return a typed-nil key inside a non-nil interface next to the error)
+//@ func ReadPrivateKeyFile(path)
+//@ func ParsePrivateKeyPEM(data)
+//@   ensures [no-pem] err == nil ==> pem.Decode(data).result0 != nil
